@@ -226,6 +226,14 @@ func ruleC09If(p *Prog, a *Anchors, r *Report) {
 					}
 				}
 			}
+			// after a body ran the tag must end: the condition loop is not re-entered
+			if hdr := loopHeaderOf(condIdx); hdr != nil {
+				for _, s := range in.Block().Succs {
+					if ReachableBlocks(s)[hdr] {
+						returned = false
+					}
+				}
+			}
 			switch {
 			case ia.Index == condIdx || p.VN(ia.Index) == p.VN(condIdx):
 				nBody++
@@ -607,25 +615,41 @@ func ruleC09Ifchanged(p *Prog, a *Anchors, r *Report) {
 		r.Unk("anchor", "-", "anchor unresolved: (*tagIfchangedNode).Execute")
 		return
 	}
-	// the evaluation loop: invoke Evaluate on watchedExpr[i]
+	// the evaluation loop: invoke Evaluate on watchedExpr[i] — in Execute itself or in a helper it calls
 	var evalCall *ssa.Call
 	var idx ssa.Value
+	exec := f
+	var helperCall ssa.Instruction
+	cands := []*ssa.Function{f}
 	for _, b := range f.Blocks {
 		for _, in := range b.Instrs {
-			c, ok := in.(*ssa.Call)
-			if !ok || !c.Common().IsInvoke() || c.Common().Method.Name() != "Evaluate" {
-				continue
-			}
-			if u, ok := c.Common().Value.(*ssa.UnOp); ok {
-				if ia, ok := u.X.(*ssa.IndexAddr); ok && loadsField(ia.X, "tagIfchangedNode", "watchedExpr") {
-					evalCall, idx = c, ia.Index
+			if ci, ok := in.(ssa.CallInstruction); ok {
+				if cal := ci.Common().StaticCallee(); cal != nil && p.InPkg(cal) && cal.Blocks != nil {
+					cands = append(cands, cal)
 				}
 			}
 		}
 	}
-	if evalCall == nil {
-		r.Unk("eval-loop", p.Pos(f.Pos()), "no evaluation of watchedExpr[i] found")
-		return
+	for _, fn := range cands {
+		for _, b := range fn.Blocks {
+			for _, in := range b.Instrs {
+				c, ok := in.(*ssa.Call)
+				if !ok || !c.Common().IsInvoke() || c.Common().Method.Name() != "Evaluate" {
+					continue
+				}
+				if u, ok := c.Common().Value.(*ssa.UnOp); ok {
+					if ia, ok := u.X.(*ssa.IndexAddr); ok && loadsField(ia.X, "tagIfchangedNode", "watchedExpr") {
+						evalCall, idx = c, ia.Index
+						f = fn
+					}
+				}
+			}
+		}
+	}
+	if f != exec {
+		for _, c := range callsTo(exec, f) {
+			helperCall = c.(ssa.Instruction)
+		}
 	}
 	hdr := loopHeaderOf(idx)
 	if hdr == nil || !ascendingIndex(idx) {
@@ -666,7 +690,7 @@ func ruleC09Ifchanged(p *Prog, a *Anchors, r *Report) {
 	}
 	// the remembered values are replaced by the complete new list
 	stored := false
-	for _, b := range f.Blocks {
+	for _, b := range exec.Blocks {
 		for _, in := range b.Instrs {
 			st, ok := in.(*ssa.Store)
 			if !ok {
@@ -677,7 +701,7 @@ func ruleC09Ifchanged(p *Prog, a *Anchors, r *Report) {
 				continue
 			}
 			stored = true
-			if hdr.Dominates(st.Block()) && !loopBlocks[st.Block()] {
+			if (f == exec && hdr.Dominates(st.Block()) && !loopBlocks[st.Block()]) || (f != exec && helperCall != nil && Dominates(helperCall, st)) {
 				r.OK("remember", p.InstrPos(in), "the new value list replaces the remembered one after all expressions were evaluated")
 			} else {
 				r.Bad("remember", p.InstrPos(in), "the remembered values are updated before/while the expressions are evaluated")
